@@ -4,7 +4,7 @@ ENGINES = [
 ]
 ENGINES.append({"name": "E2-symx-symnp", "path": "vlib/e2.py", "serves_properties": ["C02", "C06", "C08", "C09", "C11", "C12", "C14", "C15", "C16"],
      "kind_free_text": "own z3-backed proxy-object symbolic execution (vlib/symx.py) with a lazy symbolic numpy (vlib/symnp.py) patched into toasty's modules; claims proved per path; counterexamples and vacuity twins replayed with real numpy on the solver model's inputs"})
-ENGINES.append({"name": "E3-bmc", "path": "vlib/bmc.py", "serves_properties": ["C01", "C03"],
+ENGINES.append({"name": "E3-bmc", "path": "vlib/bmc.py", "serves_properties": ["C01", "C03", "C19"],
      "kind_free_text": "z3 QF_BV bounded model checking of the process protocols: producer scripts, worker reaction tables and the dispatcher's release table are extracted from the real functions on every run (vlib/mpmodel.py), composed with a trusted model of multiprocessing.Queue/Event/Process; the schedule is a solver variable with a complete step bound; counterexample schedules are replayed on the real entry points and workers under a deterministic thread scheduler"})
 NOTES = ("Solver-based checking of the real code. Exit 0 = all explored obligations held; inconclusive obligations are printed as INCONCLUSIVE and listed in evidence, never counted as held. "
          "Exit 2 = harness error. known_findings.json lists genuine defects (open / fixed).")
@@ -99,4 +99,11 @@ CHECKS["C03"] = dict(
     technique="z3 QF_BV bounded model checking of each producer/worker stage (producer script and worker reaction table extracted from the real functions; schedule symbolic, complete bound) with deterministic-scheduler replay on the real code",
     text="For leaf visits, transforms, multi-TAN and multi-WCS tiling: for ALL interleavings of producer, feeder flushes, worker receives/time-outs/callbacks/exits with 1-2 items and 2 workers (thorough: up to 5 items, 3 workers) and the queue capacity the code passes, z3 shows the entry point returns only after every item's callback completed and every worker exited, each item is processed exactly once, no deadlock, termination; the real producer enqueues exactly the serial item set.",
     note="trusted model of multiprocessing; worker = memoryless loop inferred by exhaustive probing of the real function (fails closed); pipe order not modelled (over-approximation).",
+)
+
+CHECKS["C19"] = dict(
+    engine="E3-bmc", ref="DESIGN.md §3.5",
+    technique="z3 QF_BV bounded model checking of the C03 stage models and the C01 walk model with one symbolic failing callback (fault position and schedule are solver variables); failure detection extracted by running the real entry points against failing fake processes; replay with the failure injected",
+    text="For all four producer/worker stages and the parallel walk, for ALL schedules and every position of a single failing callback, z3 shows the entry point terminates by raising: it neither returns normally with an incomplete result nor waits forever. Serial modes are executed and re-raise.",
+    note="a raising callback kills its worker (non-zero exit code) as multiprocessing does; trusted multiprocessing model; exactly one fault; detection points are where the real code reads exitcode / is_alive and raises.",
 )
